@@ -234,4 +234,21 @@ theorem cluster_length (trace : List (Nat × Nat)) (nodes nodes' : List (Tree κ
       simp only [List.length_cons]
       omega
 
+/-- the position-carrying scheme: for any merge trace that reduces the input to a single tree, the positions of its leaves,
+left to right, are a permutation of 0..n-1 -/
+theorem argsortPos_perm (n : Nat) (trace : List (Nat × Nat)) (t : Tree Nat)
+    (h : cluster trace ((List.range n).map Tree.leaf) = some [t]) :
+    argsortPos n trace = some t.inorder ∧ t.inorder.Perm (List.range n) := by
+  refine ⟨by simp [argsortPos, h], ?_⟩
+  have hl := cluster_leaves trace _ _ h
+  have hsrc : ∀ (l : List Nat), leaves (l.map Tree.leaf) = l := by
+    intro l
+    unfold leaves
+    induction l with
+    | nil => rfl
+    | cons x xs ih => simp [Tree.inorder, ih]
+  have ht : leaves [t] = t.inorder := by simp [leaves]
+  rw [hsrc, ht] at hl
+  exact hl
+
 end Hpv.Sorting
